@@ -72,9 +72,10 @@ def build_src(shape, n, name="d", base=None):
         b = base if base is not None else b
         return ("(define (nest-%s n acc) (if (= n 0) acc (nest-%s (- n 1) %s)))\n(define %s (nest-%s %d %s))\n"
                 % (name, name, wrap, name, name, n, b))
-    if shape == "mixed":
+    if shape == "mixed" or shape.startswith("alt:"):
         b = base if base is not None else "0"
-        arms = " ".join("[(= (modulo n %d) %d) %s]" % (len(MIX), i, w) for i, w in enumerate(MIX))
+        mix = MIX if shape == "mixed" else [CHAINS[k][0] for k in shape[4:].split("+")]
+        arms = " ".join("[(= (modulo n %d) %d) %s]" % (len(mix), i, w) for i, w in enumerate(mix))
         return ("(define (wrap-%s n acc) (cond %s [else acc]))\n"
                 "(define (nest-%s n acc) (if (= n 0) acc (nest-%s (- n 1) (wrap-%s n acc))))\n(define %s (nest-%s %d %s))\n"
                 % (name, arms, name, name, name, name, name, n, b))
@@ -113,14 +114,21 @@ CONNECT = {
     "": "{v}",
     "list": "(list 1 {v})",
     "ivec": "(immutable-vector {v})",
-    "pair": "(cons {v} 2)",
+    "pair": "(cons {v} 1)",
     "struct": "(node {v})",
     "map": "(hash 'k {v})",
 }
 
 
-def cycle_src(kinds, conns, name):
-    """Globals name0..name(L-1); cell i points (through connector conns[i]) to cell (i+1) mod L; `name` = cell 0."""
+CONTENT = {"box": "(unbox {c})", "sbox": "(unbox-strong {c})", "mvec": "(vector-ref {c} 0)", "mstruct": "(mnode-next {c})",
+           "closure": "({c})"}
+OUTER = {"mvec": "(vector {v})", "ivec": "(immutable-vector {v})", "list": "(list {v})", "box": "(box {v})",
+         "sbox": "(box-strong {v})", "mstruct": "(mnode {v})"}
+
+
+def cycle_src(kinds, conns, name, outer=""):
+    """Globals name0..name(L-1); cell i points (through connector conns[i]) to cell (i+1) mod L; `name` = cell 0 — or,
+    with `outer`, a fresh outer container holding what cell 0 holds (the cycle is entered at that value)."""
     L = len(kinds)
     out = []
     for i, k in enumerate(kinds):
@@ -128,12 +136,15 @@ def cycle_src(kinds, conns, name):
     for i, k in enumerate(kinds):
         tgt = "%s%d" % (name, (i + 1) % L)
         out.append(CELLS[k][1].format(c="%s%d" % (name, i), v=CONNECT[conns[i]].format(v=tgt)))
-    out.append("(define %s %s0)" % (name, name))
+    if outer:
+        out.append("(define %s %s)" % (name, OUTER[outer].format(v=CONTENT[kinds[0]].format(c=name + "0"))))
+    else:
+        out.append("(define %s %s0)" % (name, name))
     return "\n".join(out) + "\n"
 
 
-def cycle_name(kinds, conns):
-    return "cycle:" + ",".join(k + ("/" + c if c else "") for k, c in zip(kinds, conns))
+def cycle_name(kinds, conns, outer=""):
+    return "cycle:" + ",".join(k + ("/" + c if c else "") for k, c in zip(kinds, conns)) + ("@" + outer if outer else "")
 
 
 def necklaces(alphabet, L):
@@ -162,9 +173,10 @@ def op_pieces(op, shape, n):
     """Returns (pieces, expected) — pieces after the prelude; expected: dict of what S says about the `R ` lines."""
     cyc = shape.startswith("cycle:")
     if cyc:
-        kinds = [x.split("/")[0] for x in shape[6:].split(",")]
-        conns = [(x.split("/") + [""])[1] for x in shape[6:].split(",")]
-        mk = lambda nm, base=None: cycle_src(kinds, conns, nm)      # noqa: E731
+        spec, _, outer = shape[6:].partition("@")
+        kinds = [x.split("/")[0] for x in spec.split(",")]
+        conns = [(x.split("/") + [""])[1] for x in spec.split(",")]
+        mk = lambda nm, base=None: cycle_src(kinds, conns, nm, outer)      # noqa: E731
     else:
         mk = lambda nm, base=None: build_src(shape, n, nm, base)   # noqa: E731
     R = lambda e: "(begin (simple-display \"R \") (simple-display %s) (newline))" % e   # noqa: E731
@@ -433,7 +445,7 @@ def judge(res, exp, want_text=None):
 def model_shape(shape):
     if shape.startswith("cycle:"):
         return "ring:" + shape[6:]
-    if shape in CHAINS or shape == "mixed":
+    if shape in CHAINS or shape == "mixed" or shape.startswith("alt:"):
         return "chain:" + shape
     if shape == "dag":
         return "dag"
@@ -510,7 +522,6 @@ def explain(shape, op, verdict, detail, pred, table):
     ms = model_shape(shape)
     p = pred.get(ms, {}) if ms else {}
     causes = []
-    base = shape[6:].split(",")[0].split("/")[0] if shape.startswith("cycle:") else shape
     involved = list(INVOLVED[op])
     # the value is dropped at the end of every case (engine teardown)
     if "teardown" in detail or MOD_BASE.get(op, op) in ("gc-dead", "drop", "host-drop"):
@@ -522,6 +533,8 @@ def explain(shape, op, verdict, detail, pred, table):
             vs = []
             if shape.startswith("cycle:"):
                 vs = ["HeapAllocated", "MutableVector", "CustomStruct", "Closure"]
+            elif shape.startswith("alt:"):
+                vs = [v for k in shape[4:].split("+") for v in VARIANTS_OF.get(k, [])]
             else:
                 vs = VARIANTS_OF.get(shape, [])
             if any(table.get(("serialize", v)) == "recUnbounded" for v in vs):
@@ -607,6 +620,27 @@ def plan(ctx, rng):
                     stacks = ["main", "thread"]
                 for st in stacks:
                     cases.append((shape, op, size, st, b, small))
+    # alternations of two and three container kinds: the traversals hand over between kinds at every level
+    # (pair-cdr is left out: `(cons 1 <list>)` is a list again, not a Pair)
+    base_kinds = ["list", "ivec", "mvec", "pair-car", "struct", "mstruct", "box", "map-value", "closure"]
+    alts = ["alt:%s+%s" % (a, b) for i, a in enumerate(base_kinds) for b in base_kinds[i + 1:]]
+    alts += ["alt:list+ivec+pair-car", "alt:struct+list+mvec", "alt:ivec+map-value+list", "alt:pair-car+ivec+mstruct",
+             "alt:list+box+ivec", "alt:closure+list+ivec"]
+    if quick:
+        alt_ops = [("drop", "thread"), ("gc-dead", "main"), ("equal-copy", "main"), ("display-port", "main")]
+        alt_sizes = [100000]
+    else:
+        alt_ops = [(o, st) for o in ("create", "drop", "gc-dead", "host-drop", "equal-copy", "equal-diff", "display-port",
+                                     "host-display", "gc-live", "send-channel") for st in ("main", "thread")]
+        alt_sizes = [100000, 1000000]
+    for n in alt_sizes:
+        for shape in alts:
+            for op, st in alt_ops:
+                if op in PRINT_OPS and ("map-value" in shape):
+                    continue                      # K18b: one case per tier is enough (chains above)
+                if op == "display-port" and "pair" in shape and n >= 100000:
+                    continue                      # quadratic prelude printer on nested pairs (see above)
+                cases.append((shape, op, n, st, 6 if quick else (30 if n <= 100000 else 90), quick))
     # a sample of the same operations as module-level code of a required file
     for shape in ("list", "mvec", "struct", "mstruct", "box", "closure", "pair-car"):
         for op in MOD_BASE:
@@ -644,6 +678,24 @@ def plan(ctx, rng):
     for _ in range(extra):
         L = rng.randint(1, 3 if quick else 6)
         rings.append(([rng.choice(cells) for _ in range(L)], [rng.choice(conns + [""]) for _ in range(L)]))
+    # cycles entered through an outer container at the value a cell holds: the node at which the collector re-enters the
+    # cycle — the one that gets the label — is then an immutable list / pair / vector of the cycle
+    outers = ["mvec", "list", "mstruct"] if quick else list(OUTER)
+    inner_cells = ["mvec", "box", "mstruct"] if quick else ["mvec", "box", "mstruct", "sbox"]
+    inner_conns = ["list", "pair", "ivec"] if quick else ["list", "pair", "ivec", "struct", "map", ""]
+    entered = []
+    for o in outers:
+        for k in inner_cells:
+            for cn in inner_conns:
+                entered.append(([k], [cn], o))
+                if not quick:
+                    for k2 in ("mvec", "box"):
+                        entered.append(([k, k2], [cn, "list"], o))
+    for kinds, cs, o in entered:
+        nm = cycle_name(kinds, cs, o)
+        for op in (["display-port", "print-port", "host-display", "equal-copy", "gc-live"] if quick else CYCLE_OPS + ["print-port"]):
+            for st in (["thread"] if quick else ["main", "thread"]):
+                cases.append((nm, op, len(kinds), st, 2 if quick else 3, True))
     for kinds, cs in rings:
         nm = cycle_name(kinds, cs)
         for op in (QUICK_CYCLE_OPS if quick else CYCLE_OPS):
@@ -720,7 +772,7 @@ def run(ctx):
     want = {}
     qs = []
     for shape, op, n, st, bound, small in cases:
-        if op in TEXT_MODE and model_shape(shape) and model_shape(shape).startswith("chain:"):
+        if op in TEXT_MODE and model_shape(shape) and (model_shape(shape).startswith("chain:") or op == "display-port"):
             q = "text %s %s %d" % (TEXT_MODE[op], model_shape(shape), n)
             if q not in want:
                 want[q] = None
@@ -773,14 +825,14 @@ def run(ctx):
     for i, c in enumerate(cases):
         shape, op, n, st, bound, small = c
         src, exp = progs[i]
-        if shape in ("closure", "stream") and op in ("equal-copy", "host-eq", "mod-equal-copy"):
+        if ("closure" in shape or shape == "stream") and not shape.startswith("cycle:") and op in ("equal-copy", "host-eq", "mod-equal-copy"):
             exp = dict(exp)
             if "R" in exp:
                 exp["R"] = ["#false"]      # procedures and streams are compared by identity
             if "eq" in exp:
                 exp["eq"] = "false"
         wt = None
-        if op in TEXT_MODE and model_shape(shape) and model_shape(shape).startswith("chain:"):
+        if op in TEXT_MODE and model_shape(shape) and (model_shape(shape).startswith("chain:") or op == "display-port"):
             wt = want.get("text %s %s %d" % (TEXT_MODE[op], model_shape(shape), n))
         verdict, detail = judge(results[i], exp, wt)
         if wt and wt != "text none" and verdict == "ok":
